@@ -71,7 +71,7 @@ def cases(tier):
     return cs
 
 
-OPTS = {'quick': dict(max_paths=60000, budget_s=280), 'thorough': dict(max_paths=600000, budget_s=1500)}
+OPTS = {'quick': dict(max_paths=60000, budget_s=900), 'thorough': dict(max_paths=600000, budget_s=1500)}
 
 
 def ctx_class(case):
